@@ -64,7 +64,7 @@ func c14Exec(c *engine.Ctx, cs c14Case) {
 	u := math.Ldexp(1, -52)
 	scale := scaleOf(cs.Rings)
 	fail := func(what, desc string) {
-		c.Violate(cs.Mode+"/"+what, fmt.Sprintf("%s; input %v counts %v layout %v", desc, cs.Rings, cs.Counts, l), "c14", cs)
+		c.Violate(cs.Mode+"/"+what, clipStr(fmt.Sprintf("%s; layout %v counts %v input %v", desc, l, cs.Counts, cs.Rings), 2500), "c14", cs)
 	}
 	checkXY := func(what string, got geom.Coord, wx, wy *big.Float, tol float64) bool {
 		if len(got) < 2 || !closeTo(got[0], wx, tol) || !closeTo(got[1], wy, tol) {
@@ -382,6 +382,34 @@ func c14Run(c *engine.Ctx) {
 				c14Exec(c, c14Case{Mode: "ring", Layout: l, Rings: [][]ref.F{ringF(closed[:len(closed)], off)}})
 				c14Exec(c, c14Case{Mode: "polygons", Layout: l, Rings: [][]ref.F{ringF(closed, off)}, Counts: []int{1}})
 			}
+		}
+	})
+	// many points / long polylines: every count 1..70, and counts around powers of two and around
+	// 4096/3 and 8192/3 (a sum that is blocked or unrolled by ordinates instead of by coordinates
+	// misaligns for strides that do not divide the block), in all four layouts
+	var bigCounts []int
+	for n := 1; n <= 70; n++ {
+		bigCounts = append(bigCounts, n)
+	}
+	for _, n := range []int{100, 127, 128, 129, 255, 256, 257, 511, 512, 513, 682, 683, 1000, 1023, 1024, 1025, 1365, 1366, 1367, 2047, 2048, 2049, 2730, 2731, 4095, 4096, 4097, 5000, 8191, 8192, 8193} {
+		bigCounts = append(bigCounts, n)
+	}
+	if c.Thorough() {
+		bigCounts = append(bigCounts, 16383, 16384, 16385, 32769, 65537)
+	}
+	c.Note("big_point_counts", len(bigCounts))
+	c.Parallel(len(bigCounts)*4, func(i int) {
+		n, l := bigCounts[i/4], layouts[i%4]
+		pts := make([]ref.P2, n)
+		for k := range pts {
+			pts[k] = ref.P2{X: float64((k*7919)%1009) - 300, Y: float64((k*104729+k*k)%997) + 0.5*float64(k%2)}
+		}
+		off := offsets[i%3]
+		c14Exec(c, c14Case{Mode: "points", Layout: l, Rings: [][]ref.F{ringF(pts, off)}})
+		c.Count("big_point_sets", 1)
+		if n >= 2 && n <= 4097 {
+			c14Exec(c, c14Case{Mode: "lines", Layout: l, Rings: [][]ref.F{ringF(pts, off)}})
+			c.Count("big_polylines", 1)
 		}
 	})
 	// rings with many vertices: convex lattice hulls (up to ~40 vertices from 200 points) around
